@@ -482,6 +482,10 @@ class Arr:
             dt = 'bool'
         r = Arr(shape, legs, dt, None, tags, name)
         r.tags['expr'] = (name, (o, self) if rev else (self, o))
+        if 'arange' in self.tags and name in ('add', 'sub') and isinstance(o, (int, Size)) and not isinstance(o, bool) and not (name == 'sub' and rev):
+            lo, hi = self.tags['arange']          # an index vector c + arange(n) stays an index vector
+            off = o if name == 'add' else -o
+            r.tags['arange'] = (simp(Size.of(lo, CTX.atoms) + off), simp(Size.of(hi, CTX.atoms) + off))
         if name == 'mul' and isinstance(o, (int, float, complex)) and not isinstance(o, bool):
             c0, root = self.tags.get('scale', (1, self))
             r.tags['scale'] = (c0 * o, root)
@@ -674,6 +678,34 @@ def reshape(a, shape):
 
 
 # ------------------------------------------------------------------------------------------------ indexing
+class IntVec(list):
+    """a concrete integer index vector (np.arange of concrete arguments): a list with NumPy's element-wise arithmetic"""
+
+    def _el(self, o, f):
+        if isinstance(o, (list, tuple)):
+            if len(o) != len(self):
+                raise value_error(f'operands could not be broadcast together with shapes ({len(self)},) ({len(o)},)')
+            return IntVec(f(x, y) for x, y in zip(self, o))
+        if isinstance(o, (int, Size)):
+            return IntVec(f(x, o) for x in self)
+        return NotImplemented
+
+    def __add__(self, o): return self._el(o, lambda x, y: x + y)
+    def __radd__(self, o): return self._el(o, lambda x, y: y + x)
+    def __sub__(self, o): return self._el(o, lambda x, y: x - y)
+    def __rsub__(self, o): return self._el(o, lambda x, y: y - x)
+    def __mul__(self, o): return self._el(o, lambda x, y: x * y)
+    def __rmul__(self, o): return self._el(o, lambda x, y: y * x)
+
+    def __getitem__(self, i):
+        r = list.__getitem__(self, i)
+        return IntVec(r) if isinstance(i, slice) else r
+
+    @property
+    def shape(self):
+        return (len(self),)
+
+
 class SymIdx:
     """a symbolic index j in [lo, hi): one representative iteration of a loop whose trip count is a size atom"""
 
@@ -843,6 +875,44 @@ def outer_gather(a, idx):
     return Arr([a.shape[k] for k in order], [a.legs[k] for k in order], a.dt, None, {}, 'outer-gather')
 
 
+def pointwise_advanced(shape, legs, adv_pos, adv_axes):
+    """NumPy semantics of several advanced indices: the index arrays are broadcast against each other and produce ONE axis (point-wise selection); that axis
+    replaces the first index array if all advanced indices (index arrays and integers) are adjacent, otherwise it comes first"""
+    if not adv_axes:
+        return shape, legs
+    adjacent = all(q == p + 1 for p, q in zip(adv_pos, adv_pos[1:]))
+    if len(adv_axes) == 1 and adjacent:
+        return shape, legs
+    k, g = None, None
+    for ax in adv_axes:
+        n = shape[ax]
+        if k is None or is_one(k):
+            k, g = n, legs[ax]
+        elif not (is_one(n) or sz_eq(n, k)):
+            raise Raised('IndexError', f'shape mismatch: indexing arrays could not be broadcast together with shapes ({k},) ({n},)')
+    if len(adv_axes) > 1:
+        g = () if is_one(k) else (opaque_leg(k, 'point-wise selection'),)
+    first = adv_axes[0]
+    shape2 = [s_ for i, s_ in enumerate(shape) if i not in adv_axes]
+    legs2 = [l_ for i, l_ in enumerate(legs) if i not in adv_axes]
+    at = first if adjacent else 0
+    shape2.insert(at, k)
+    legs2.insert(at, g)
+    return shape2, legs2
+
+
+def affine_index(x):
+    """(start, length) if the index vector x is start + arange(length), else None"""
+    if isinstance(x, IntVec):
+        if all(isinstance(v, (int, Size)) for v in x) and all(sz_eq(Size.of(b, CTX.atoms) - a, 1) for a, b in zip(x, x[1:])):
+            return (x[0] if len(x) else 0), len(x)
+        return None
+    if isinstance(x, Arr) and x.ndim == 1 and 'arange' in x.tags:
+        lo, hi = x.tags['arange']
+        return lo, x.shape[0]
+    return None
+
+
 def getitem(a, idx):
     idx = expand_index(a, idx)
     og = outer_gather(a, idx)
@@ -852,7 +922,12 @@ def getitem(a, idx):
     adv = [x for x in idx if (isinstance(x, Arr) and x.ndim >= 1) or isinstance(x, list)]
     view = not adv
     sel = []
-    for x in idx:
+    adv_pos, adv_axes = [], []          # positions in idx of advanced indices (index arrays, and integers once an index array is present); output axes made by index arrays
+    for pos, x in enumerate(idx):
+        if adv and not isinstance(x, slice) and x is not None:
+            adv_pos.append(pos)
+        if (isinstance(x, Arr) and x.ndim >= 1) or isinstance(x, list):
+            adv_axes.append(len(shape))
         if x is None:
             shape.append(1); legs.append(()); continue
         n, g = a.shape[ax], a.legs[ax]
@@ -898,6 +973,7 @@ def getitem(a, idx):
                 CTX.event('index-drop', array=a, axis=ax, index=i, legs=g, detail=f'integer index {i} selects one slice of non-unit index {list(g)}')
             sel.append(('int', i))
         ax += 1
+    shape, legs = pointwise_advanced(shape, legs, adv_pos, adv_axes)
     tags = {}
     if 'prov' in a.tags:
         tags['prov'] = dict(a.tags['prov'], sel=a.tags['prov'].get('sel', ()) + (tuple(sel),))
@@ -929,8 +1005,30 @@ def setitem(a, idx, v):
     if isinstance(v, Arr) and v.buf is a.buf and v.tags.get('inplace_done'):
         return          # x[sel] op= y : the in-place operation on the view has already been recorded; storing the view back is a no-op
     idx = expand_index(a, idx)
+    vecs = [(pos, x) for pos, x in enumerate(idx) if (isinstance(x, Arr) and x.ndim >= 1) or isinstance(x, list)]
+    if len(vecs) >= 2 and all(affine_index(x) is not None for _, x in vecs):
+        # a[c1 + arange(n), ..., c2 + arange(n)] = v  is the loop  for j in range(n): a[c1 + j, ..., c2 + j] = v   (v must not vary with j)
+        aff = [affine_index(x) for _, x in vecs]
+        n = aff[0][1]
+        if any(not sz_eq(m, n) for _, m in aff):
+            raise Raised('IndexError', 'shape mismatch: indexing arrays could not be broadcast together')
+        rest = [a.shape[k_] for k_, x in enumerate([y for y in idx if y is not None]) if isinstance(x, slice)]
+        if isinstance(v, Arr) and v.ndim > sum(1 for y in idx if isinstance(y, slice)):
+            raise AnalysisError('point-wise store of a value that varies along the index vectors has no model')
+        if isinstance(n, int):
+            for t in range(n):
+                setitem(a, tuple((aff[[p for p, _ in vecs].index(pos)][0] + t) if pos in [p for p, _ in vecs] else x for pos, x in enumerate(idx)), v)
+        else:
+            j = SymIdx(0, n)
+            setitem(a, tuple((j + aff[[p for p, _ in vecs].index(pos)][0]) if pos in [p for p, _ in vecs] else x for pos, x in enumerate(idx)), v)
+        return
     sel_shape, sel, ax = [], [], 0
-    for x in idx:
+    adv_pos, adv_axes = [], []
+    for pos, x in enumerate(idx):
+        if vecs and not isinstance(x, slice) and x is not None:
+            adv_pos.append(pos)
+        if (isinstance(x, Arr) and x.ndim >= 1) or isinstance(x, list):
+            adv_axes.append(len(sel_shape))
         if x is None:
             sel_shape.append(1); continue
         n = a.shape[ax]
@@ -959,6 +1057,7 @@ def setitem(a, idx, v):
             sel.append(('int', i))
         ax += 1
     # value must broadcast to the selection
+    sel_shape, _ = pointwise_advanced(sel_shape, [()] * len(sel_shape), adv_pos, adv_axes)
     if isinstance(v, Arr):
         vs = [s for s in v.shape]
         ss = list(sel_shape)
